@@ -55,7 +55,10 @@ def g_formula(draw):
     n = gen.integer(draw, 1, 40 if gen.big() else 14)
     X, kind = gen.data_from(draw, p, n, kind=gen.choice(draw, ["bulk", "bulk", "mixed"]))
     chunks = gen.composition(draw, n)
-    return {"p": p, "X": X, "kind": kind, "chunks": chunks, "dask": gen.boolean(draw)}
+    how = gen.presentation(draw)
+    if how == "int":
+        X = gen.integral(X)
+    return {"p": p, "X": X, "kind": kind, "chunks": chunks, "dask": gen.boolean(draw), "how": how}
 
 
 @REG.obligation("stats_formula", g_formula, quick=500, thorough=12000)
@@ -69,7 +72,8 @@ def c_formula(ctx, case):
     if case["dask"]:
         s = _sd(g.acc_stats(sut.dask_rows(X, case["chunks"])))
     else:
-        s = _sd(g.acc_stats(X))
+        ctx.event("input:" + case.get("how", "plain"))
+        s = _sd(g.acc_stats(sut.present(X, case.get("how", "plain"))))
     _cmp_stats(ctx, s, want, X, "acc_stats")
     ctx.check((s["n"] >= 0).all(), "negative responsibility mass %r" % s["n"], "n<0")
     ctx.close(s["n"].sum(), X.shape[0], "sum(n)==t", rtol=1e-12, atol=1e-12 * X.shape[0])
